@@ -17,7 +17,7 @@ SCRIPT_KINDS = ("str", "vtl-path", "transformation-scheme")
 DS_KINDS = ("dict", "list-of-dicts", "json-path", "list-dict+path", "schema-list")
 # frame variants of the caller's DS_1 DataFrame: one deviation from "native-default" each
 FRAME_VARIANTS = ("native-default", "nondefault-index", "bom-column", "missing-nullable-column", "extra-column",
-                  "categorical", "object-dtype", "object-empty-string", "arrow-string", "readonly-numpy", "slice-view")
+                  "categorical", "object-dtype", "empty-string-in-non-string-column", "arrow-string", "readonly-numpy", "slice-view")
 CSV_VARIANTS = ("native-default", "bom-column", "missing-nullable-column", "extra-column")
 DP_FRAME_KINDS = ("dict-frames", "dict-frame+csv", "dict-frame+url")
 DP_PATH_KINDS = ("dict-csv-paths", "dict-csv+url", "list-csv-paths", "single-csv-path")
@@ -114,7 +114,7 @@ QUICK_RULE = ("quick = a sub-lattice of the full space: semantic_analysis, valid
               "+ [script kinds vtl-path and transformation-scheme x every data_structures kind x every outcome on the base]; "
               "run_sdmx = [every frame variant x mappings kind x outcome, str script, no libraries] + [every script kind x "
               "mappings kind x same-shape libraries x outcome on the native-default frame]. thorough = the full product; "
-              "the quick sub-lattice is executed first and always completely, the remainder under a wall-clock budget "
+              "the quick sub-lattice is executed first and always completely, then the corpus calls and the remainder under a wall-clock budget "
               "(VTLMC_C22_BUDGET_S, default 1500 s; 0 = no limit) - cases skipped because of the budget are counted and "
               "make the run non-exhaustive")
 
@@ -203,7 +203,7 @@ def make_frame(variant, poisoned=False):
         df["Id_1"] = df["Id_1"].astype("category")
     elif variant == "object-dtype":
         df = pd.DataFrame({k: pd.Series(v, dtype="object") for k, v in cols.items()})
-    elif variant == "object-empty-string":
+    elif variant == "empty-string-in-non-string-column":
         cols["Me_2"][1] = ""          # a non-String column carrying an empty string (what a hand-read CSV gives)
         df = pd.DataFrame({k: pd.Series(v, dtype="object") for k, v in cols.items()})
     elif variant == "arrow-string":
@@ -476,3 +476,106 @@ def install_stub():
     import vtlengine.API._InternalApi as I
     A._handle_url_datapoints = url_stub
     I._handle_url_datapoints = url_stub
+
+
+# ------------------------------------------------------------------------------------------------
+# corpus cases: the recorded public-API calls of the upstream suite, re-executed with a snapshot around them
+# ------------------------------------------------------------------------------------------------
+
+_CORPUS = {}
+
+
+def _corpus():
+    if not _CORPUS:
+        from vtlmc import corpus
+        for r in corpus.load():
+            if r["fn"] in FUNCS:
+                _CORPUS[r["id"]] = r
+    return _CORPUS
+
+
+def _kw_names(r):
+    k = r["kwargs"]
+    return [kv[0] for kv in k["$dict"]] if isinstance(k, dict) and "$dict" in k else list(k)
+
+
+def _writes_output(r):
+    """calls with an output folder are left out: the recorded folders live under /repo/tests"""
+    from vtlmc import corpus
+    a, k = corpus.materialise(r)
+    if k.get("output_folder") is not None:
+        return True
+    return r["fn"] == "run" and len(a) > 7 and a[7] is not None
+
+
+def corpus_cases():
+    out = []
+    for rid, r in sorted(_corpus().items()):
+        if _writes_output(r):
+            continue
+        out.append({"fn": r["fn"], "corpus": rid, "test": r.get("test", "")})
+    return out
+
+
+_PARAMS = {
+    "run": ["script", "data_structures", "datapoints", "value_domains", "external_routines", "time_period_output_format",
+            "return_only_persistent", "output_folder", "scalar_values", "sdmx_mappings", "output_format"],
+    "run_sdmx": ["script", "datasets", "mappings", "value_domains", "external_routines"],
+    "semantic_analysis": ["script", "data_structures", "value_domains", "external_routines", "sdmx_mappings"],
+    "validate_dataset": ["data_structures", "datapoints", "scalar_values"],
+    "prettify": ["script"],
+    "generate_sdmx": ["script", "agency_id", "id", "version"],
+}
+
+
+def _components_of(data_structures, name):
+    """the component dicts of dataset `name` when data_structures is given in memory (else None)"""
+    items = data_structures if isinstance(data_structures, list) else [data_structures]
+    for it in items:
+        if isinstance(it, dict):
+            for d in it.get("datasets", []):
+                if isinstance(d, dict) and d.get("name") == name and "DataStructure" in d:
+                    return d["DataStructure"]
+    return None
+
+
+def frame_class(df, comps):
+    """the equivalence class of a frame that was not built by make_frame (same vocabulary)"""
+    labels = [str(x) for x in df.columns]
+    if any(x.startswith(BOM) for x in labels):
+        return "bom-column"
+    if comps:
+        names = [x["name"] for x in comps]
+        missing = [x for x in comps if x["name"] not in labels]
+        if missing:
+            nullable = all(x.get("nullable", x.get("role") != "Identifier") for x in missing)
+            return "missing-nullable-column" if nullable else "missing-non-nullable-column"
+        if any(x not in names for x in labels):
+            return "extra-column"
+        for x in comps:
+            if x.get("type", x.get("data_type")) != "String":
+                col = df[x["name"]]
+                if col.dtype == object or str(col.dtype).startswith(("str", "string")):
+                    if any(isinstance(v, str) and v == "" for v in col.tolist()):
+                        return "empty-string-in-non-string-column"
+    return "corpus-frame"
+
+
+def build_corpus(c, workdir):
+    import pandas as pd
+    from vtlmc import corpus
+    r = _corpus()[c["corpus"]]
+    args, kwargs = corpus.materialise(r)
+    names = _PARAMS[c["fn"]]
+    owned, reg = {}, {}
+    for n, v in list(zip(names, args)) + list(kwargs.items()):
+        if n in ("script", "data_structures", "datapoints", "value_domains", "external_routines", "scalar_values",
+                 "sdmx_mappings", "datasets", "mappings"):
+            owned[n] = v
+    dsx = owned.get("data_structures")
+    dpv = owned.get("datapoints")
+    if isinstance(dpv, dict):
+        for k, v in dpv.items():
+            if isinstance(v, pd.DataFrame):
+                reg[id(v)] = ("dataframe", frame_class(v, _components_of(dsx, k) if dsx is not None else None))
+    return {"args": args, "kwargs": kwargs, "owned": owned, "registry": reg, "env": r.get("env") or {}}
